@@ -30,6 +30,18 @@ fn check_releases(cx: &mut Ctx, eng: &mut Engine, what: &str, container: &str, m
         let c = eng.case(json!({"what":what,"container":container,"address":format!("{:#x}", addr),"released_size":size,"secret_pattern_bytes_past_released_size":b}));
         cx.violation(&format!("C15|{}|secret_bytes_left_past_released_size", container), c);
     }
+    // second observer (mon/heapwatch.rs): the block as libc's free() receives it, and blocks not freed at all
+    #[cfg(not(feature = "asan"))]
+    if super::heapwatch::enabled() {
+        super::heapwatch::scan_live();
+        let hits = super::heapwatch::take_hits();
+        if let Some(&(addr, size, off, len, kind)) = hits.first() {
+            let c = eng.case(json!({"what":what,"container":container,"block":format!("{:#x}", addr),"block_size":size,"offset_of_pattern_run":off,"run_length":len,"blocks_with_pattern":hits.len(),
+                "observer":"posix_memalign/free interposer (independent of the allocator hook)"}));
+            cx.violation(&format!("C15|{}|{}", container, if kind == 0 { "secret_pattern_in_block_given_to_free" } else { "secret_pattern_left_in_block_not_freed_after_drop" }), c);
+        }
+        cx.cover("heapwatch", if hits.is_empty() { "blocks_clean" } else { "blocks_with_pattern" });
+    }
     if must_release && seen == 0 {
         cx.cover("history_without_release(inconclusive)", container);
     } else if seen > 0 {
@@ -247,6 +259,10 @@ pub fn run(cx: &mut Ctx) {
     } else {
         cx.cover("process_mode", "default");
     }
+    #[cfg(not(feature = "asan"))]
+    if cx.opt("no_heapwatch").is_none() && cx.opt("valgrind").is_none() {
+        super::heapwatch::enable();
+    }
     let mut eng = Engine::new("C15", false, false);
     let page = eng.page;
     let depth = cx.tier.pick(2usize, 3, 5);
@@ -297,6 +313,17 @@ pub fn run(cx: &mut Ctx) {
     if cx.shard == 0 {
         cx.sample(json!({"family":"type-state sequences","depth":depth,"pattern":"zero-free bytes 1 + (7i + 13s) mod 255","oracle":"Release{nonzero} == 0 for every release"}));
         cx.sample(json!({"family":"HeapBytes histories","variants":["drop","grow across reallocation","shrink","grow then shrink","clone","truncate","repeated growth","lock/unlock/no-access"],"lengths":[1,16,100,"page-1","page","page+1","2*page+7","5*page"]}));
+    }
+    #[cfg(not(feature = "asan"))]
+    if super::heapwatch::enabled() {
+        let (rec, freed, full) = super::heapwatch::counters();
+        cx.note("heapwatch", json!({"page_aligned_allocations_recorded":rec,"given_to_free_and_scanned":freed,"not_recorded_table_full":full,"still_live_at_end":super::heapwatch::live_blocks()}));
+        if rec == 0 || freed == 0 {
+            cx.violation("HARNESS|C15|heapwatch_saw_no_allocation", json!({"recorded":rec,"freed":freed}));
+        }
+        if full > 0 {
+            cx.violation("HARNESS|C15|heapwatch_table_full", json!({"count":full}));
+        }
     }
     if observer_overflowed() {
         cx.violation("HARNESS|C15|allocator_event_ring_overflow", json!({}));
